@@ -189,12 +189,4 @@ def run(rep, wd, tier, seed):
 
 
 def replay(rep, wd, payload):
-    p = payload['payload']
-    if p.get('bytes_hex') and p.get('event') == 'loads' and len(p['bytes_hex']) < 400:
-        bc = isocheck.get_config(tuple(p['config']))
-        e, d = isoc.do_loads(bytes.fromhex(p['bytes_hex']), p['codec'], bc, p['hex_bitmap'])
-        print('observed now:', e['kind'], e.get('_observed'))
-        if e['kind'] not in ('ok', 'liberr'):
-            rep.violation(payload['key'], p)
-    else:
-        print('re-run the full check with VERIF_SEED=%s to reproduce (seeded generation)' % payload.get('seed'))
+    isocheck.replay(rep, wd, payload, owner, 'decode')
